@@ -42,16 +42,35 @@ findings are excluded by hypotheses named after them, evaluated in the state in 
 does not fail) and `Act.noD26` (`SetMeta` does not fail after it took effect — the machine has no such step:
 with `failEffect` there `newManifest` removes the manifest `CURRENT` already names; `fileStorage.GetMeta`
 survives this only through its `CURRENT.bak` fallback, which is outside the `storage.Storage` contract).
-Journal faults of the write path are excluded there (`Act.writerFaultFree`); they are the subject of
-`fault_safe_partial`.
+Journal faults of the write path are excluded there (`Act.writerFaultFree`).
 
-Not proved (`fault_safe_full`): journal faults of the write path *together with* flushes and commits (with
-them the journal holds failed groups that are not in the write buffer, which `RunOK.jcur`/`FrozenFacts` state
-as an equality), and D10/D26.  Random exploration of the machine with all faults (4 000 runs of 200 steps with
-18 % injected faults, crash images checked after every step, `Scratch/Explore.lean` in the work area) finds no
-violation of crash consistency for the repaired configuration; restricted to the fault classes of
-`fault_safe_jobs` it finds no violation of the invariant either (3 000 runs), and for the excluded classes it
-does.  Damaged data under checksum verification: C12 (journal chunks) and C13 (table blocks).
+`fault_safe_writer_partial` adds them: the same statement for every run whose faults are those of
+`fault_safe_jobs` **and every journal `Write`/`Flush`/`Sync` failure of the write path, with or without effect**,
+interleaved in any way with rotations, flushes, table compactions, transactions and recoveries
+(`consumeSeqOnJournalError = true`, the repair of D4).  The invariant no longer says "current journal = write
+buffer ++ group in flight" but `JournalHolds`: the buffer's groups are in the journal, every group in the
+journal that is not in the buffer is not acknowledged and lies at or below `seq` (a failed group: its numbers
+are consumed, its record may or may not be in the file), and — as long as no journal operation has failed
+(ghost `St.everFailed`) — the journal is exactly the buffer.  Two restrictions remain besides `noD10`/`noD26`,
+both evaluated in the state in which the action is taken (`Act.faultsOK`):
+
+* `Act.trOnCleanJournals`: no `OpenTransaction` while the record of a failed write may wait in a journal the
+  next `Open` replays.  The step that breaks: the commit of the transaction puts `seqNum = tr.seq` into the
+  manifest, above the failed record still in the current journal, so "every replayed record is at or above the
+  manifest's sequence number" (`ViewOK.jseq`; `EditOK.keep` in `Inv.editOK_tr`) fails.  In the code
+  `decodeBatchToMem` then refuses that record ("invalid sequence number"): dropped in the default mode — which
+  is harmless, it was reported as failed — but with `Options.StrictJournal` the next `Open` fails.  The
+  machine's `trBegin` is more liberal than `OpenTransaction`, which first rotates the buffer and waits for its
+  flush (`rotateMem(0, true)`): in the code the hypothesis can only fail when that buffer was empty
+  (`dropFrozenMem`, no manifest commit) *and* the `Remove` of the old journal failed;
+* `Act.rotateCreateOK`: `newMem`'s `Create` of the next journal does not fail after the file was made.
+
+Not proved (`fault_safe_full`): those two cases and D10/D26.  Random exploration of the machine with all faults
+(4 000 runs of 200 steps with 18 % injected faults, crash images checked after every step,
+`Scratch/Explore.lean` in the work area) finds no violation of crash consistency for the repaired
+configuration; restricted to `Act.faultsOK` it finds no violation of the invariant either (4 000 runs with
+compactions and transactions), and for the excluded classes it does.  Damaged data under checksum
+verification: C12 (journal chunks) and C13 (table blocks).
 -/
 namespace GoLevel.C08
 open GoLevel GoLevel.Dur
@@ -137,11 +156,11 @@ theorem d4_loses_acked_write :
     failure inside a flush, a table compaction, a transaction commit or a recovery, the known findings D10 and
     D26 excepted) ends in a state all of whose crash images open and are consistent with the history. -/
 theorem fault_safe_jobs {cfg : Cfg} (hg : cfg.Good) {as : List Act} {s : St} {d : Disk}
-    (hal : Allowed cfg Act.jobFaultsOnly init as) (hr : run cfg init as = some (s, d))
+    (hal : Allowed cfg (fun sd a => a.jobFaultsOnly sd.1) init as) (hr : run cfg init as = some (s, d))
     {d' : Disk} (hi : IsCrashImage d d') {c : UCmp} (hl : LawfulUCmp c) (hw : ∀ g ∈ issuedGrps s, g.wf) :
     ∃ r, recoverR cfg d' = .ok r ∧ ∃ sel, C04.Consistent c s r sel := by
   obtain ⟨ch, rfl⟩ := hi
-  have hinv : Inv cfg s d := inv_run_faults hg (inv_init cfg) as hal hr
+  have hinv : Inv cfg s d := inv_run_jobFaults hg (inv_init cfg) rfl as hal hr
   obtain ⟨r, hrec, hgood⟩ := (hinv.disk.crash hg.noTrace ch).open_ok
   exact ⟨r, hrec, C04.consistent_of_good hl hw hgood⟩
 
@@ -161,13 +180,63 @@ def faultyFlush : List Act :=
    .job false .ok, .job false .failNoEffect, .job false .ok, .job false .ok, .job false .ok]
 
 /-- … is a run `fault_safe_jobs` speaks about, the acknowledged write survives every step of it … -/
-example : allowed {} Act.jobFaultsOnly init faultyFlush = true := by decide
+example : allowed {} (fun sd a => a.jobFaultsOnly sd.1) init faultyFlush = true := by decide
 example : (List.range (faultyFlush.length + 1)).all (fun n =>
     C04.losesAcked {} {} (faultyFlush.take n) == some false) = true := by decide
 /-- … the flush completes and the value is read from the table after a reopen -/
 example : (run {} init faultyFlush).map (fun sd => (sd.1.job, sd.2.journals.map (·.1), sd.2.current,
     sd.2.manifests.map (·.1))) = some (none, [2, 3], some 6, [1, 6]) := by decide
 example : C04.readsK {} faultyFlush = some (some [118]) := by decide
+
+/-- **C08 with journal faults of the write path as well.**  Every run whose faults are those of `Act.faultsOK` ends
+    in a state all of whose crash images open and are consistent with the history.  `Act.faultsOK`: every
+    failure inside a flush, a table compaction, a transaction commit or a recovery (D10 and D26 excepted, as in
+    `fault_safe_jobs`), **every failure of a journal `Write`/`Flush`/`Sync` of the write path, with or without
+    effect** (the group is reported as failed, its sequence numbers are consumed, its record may or may not be in
+    the journal; the flush of that journal leaves it out, the next `Open` may replay it), and a `newMem` whose
+    `Create` fails without effect.  Two restrictions make this a `_partial`:
+
+    * `Act.trOnCleanJournals`: `OpenTransaction` happens only when no record of a failed write may be waiting
+      in a journal the next `Open` would replay (no journal operation has failed so far, or those journals
+      are empty).  What breaks without it: the commit of the transaction writes `seqNum := tr.seq` into the
+      manifest while the current journal still holds the failed record with a *lower* sequence number;
+      `ViewOK.jseq` ("every record the next `Open` replays lies at or above the manifest's sequence number",
+      the step `EditOK.keep` of `Inv.editOK_tr`) no longer holds.  The code copes in the default mode
+      (`recoverJournal` skips the record: "invalid sequence number"), and with `StrictJournal` `Open` fails;
+    * `Act.rotateCreateOK`: the `Create` of the new journal in `newMem` does not fail *after* the file was
+      made (the file number is handed back by `reuseFileNum`, the file stays: `RunOK.nums`/`jmax` break). -/
+theorem fault_safe_writer_partial {cfg : Cfg} (hg : cfg.Good) (hcs : cfg.consumeSeqOnJournalError = true)
+    {as : List Act} {s : St} {d : Disk}
+    (hal : Allowed cfg Act.faultsOK init as) (hr : run cfg init as = some (s, d))
+    {d' : Disk} (hi : IsCrashImage d d') {c : UCmp} (hl : LawfulUCmp c) (hw : ∀ g ∈ issuedGrps s, g.wf) :
+    ∃ r, recoverR cfg d' = .ok r ∧ ∃ sel, C04.Consistent c s r sel := by
+  obtain ⟨ch, rfl⟩ := hi
+  have hinv : Inv cfg s d := inv_run_faults hg hcs (inv_init cfg) as hal hr
+  obtain ⟨r, hrec, hgood⟩ := (hinv.disk.crash hg.noTrace ch).open_ok
+  exact ⟨r, hrec, C04.consistent_of_good hl hw hgood⟩
+
+/-- a write whose journal `Write` fails after the record reached the file, a write whose `Sync` fails, a good
+    synced write, then the rotation of the buffer and its flush — with a failing table `Write` on the way -/
+def faultyWrites : List Act :=
+  [.wAppend [⟨1, [97], [1]⟩] true .failEffect,                       -- "a": Write fails, the record is in the file
+   .wAppend [⟨1, [98], [2]⟩] true .ok, .wSync .failNoEffect,         -- "b": Sync fails
+   .wAppend C04.putKV true .ok, .wSync .ok, .wApply, .wPublish, .wAck,   -- "k": acknowledged with Sync
+   .rotate .failNoEffect, .rotate .ok, .flushStart,
+   .job false .ok, .job false .failEffect,                            -- tCreate, tWrite fails
+   .job false .ok, .job false .ok, .job false .ok,                    -- the table
+   .job false .ok, .job false .ok, .job false .ok,                    -- append, sync, install
+   .job false .ok, .job false .ok, .job false .ok, .job false .ok]    -- removals, done
+
+/-- … is a run `fault_safe_writer_partial` speaks about; the acknowledged write survives a crash after every
+    prefix; after the flush the failed records are gone with the journal, the acknowledged value is read -/
+example : allowed {} Act.faultsOK init faultyWrites = true := by decide
+example : (List.range (faultyWrites.length + 1)).all (fun n =>
+    C04.losesAcked {} {} (faultyWrites.take n) == some false) = true := by decide
+example : C04.readsK {} faultyWrites = some (some [118]) := by decide
+/-- before the flush a reopen (no crash) replays the failed records too: "a" and "b" are wholly applied -/
+example : readsAB {} (faultyWrites.take 8) = some (some [1], some [2]) := by decide
+/-- … after it they are wholly absent -/
+example : readsAB {} faultyWrites = some (none, none) := by decide
 
 /-- The statement for the whole machine with faults everywhere (not proved, see the header). -/
 def fault_safe_full : Prop :=
@@ -179,6 +248,7 @@ def fault_safe_full : Prop :=
 
 /-- The property theorems of this file (for the audit). -/
 def theorems : List String :=
-  ["GoLevel.C08.fault_safe_partial", "GoLevel.C08.fault_safe_jobs", "GoLevel.C08.d4_loses_acked_write"]
+  ["GoLevel.C08.fault_safe_partial", "GoLevel.C08.fault_safe_jobs", "GoLevel.C08.fault_safe_writer_partial",
+   "GoLevel.C08.d4_loses_acked_write"]
 
 end GoLevel.C08
